@@ -36,11 +36,15 @@ def run_dist(i, scratch, adj, app, hosts, policy, exe, threads, extra):
     grfile.write_gr(os.path.join(d, "g.tgr"), transpose(adj), 4)
     args = MPIRUN + ["-n", str(hosts), dbin("dapp-" + app), os.path.join(d, "g.gr"), "--graphTranspose=" + os.path.join(d, "g.tgr"), "--partition=" + policy,
                      "--exec=" + exe, "--output", "--outputLocation=" + os.path.join(d, "out"), "--runs=1", "-t=%d" % threads] + extra
-    try:
-        p = subprocess.run(args, stdout=subprocess.PIPE, stderr=subprocess.STDOUT, timeout=180, env=dict(os.environ, GALOIS_DO_NOT_BIND_THREADS="1"))
-        rc, out = p.returncode, p.stdout.decode("utf-8", "replace")
-    except subprocess.TimeoutExpired:
-        rc, out = 124, "timeout"
+    rc, out = 124, "timeout"
+    for attempt in (1, 3):
+        try:
+            p = subprocess.run(args, stdout=subprocess.PIPE, stderr=subprocess.STDOUT, timeout=180 * attempt, env=dict(os.environ, GALOIS_DO_NOT_BIND_THREADS="1"))
+            rc, out = p.returncode, p.stdout.decode("utf-8", "replace")
+            break
+        except subprocess.TimeoutExpired:
+            for f in os.listdir(os.path.join(d, "out")):
+                os.remove(os.path.join(d, "out", f))
     vals = {}
     dup = False
     for f in sorted(os.listdir(os.path.join(d, "out"))):
@@ -132,12 +136,14 @@ def edges_of(adj):
 
 
 def run_app(app, args, path, timeout=120):
-    try:
-        p = subprocess.run([fbin("app-" + app)] + args + [path], stdout=subprocess.PIPE, stderr=subprocess.STDOUT, timeout=timeout,
-                           env=dict(os.environ, GALOIS_DO_NOT_BIND_THREADS="1"))
-        return p.returncode, p.stdout.decode("utf-8", "replace")
-    except subprocess.TimeoutExpired:
-        return 124, "timeout"
+    for attempt in (1, 3):      # a run that does not finish is repeated once with three times the bound before it counts as a hang
+        try:
+            p = subprocess.run([fbin("app-" + app)] + args + [path], stdout=subprocess.PIPE, stderr=subprocess.STDOUT, timeout=timeout * attempt,
+                               env=dict(os.environ, GALOIS_DO_NOT_BIND_THREADS="1"))
+            return p.returncode, p.stdout.decode("utf-8", "replace")
+        except subprocess.TimeoutExpired:
+            pass
+    return 124, "timeout"
 
 
 def grab(pat, out, default=None):
